@@ -1,12 +1,13 @@
-SPECIFICATION Spec
+\* Local steps first (NextPOR), cache size 2, two forgets ("por_lru2_f2" of checks/c14.py).
+SPECIFICATION SpecPOR
 CONSTANTS
   Execs = {"e1", "e2", "e3"}
   Arity <- MCArity
-  MaxLRU = 1
-  MaxForget = 1
+  MaxLRU = 2
+  MaxForget = 2
   MaxFail = 1
   Cancellable = {}
   UniqueIds = TRUE
-  Plans <- PlansCore
+  Plans <- PlansMost
 INVARIANTS Bounded PreparedOnce FailedNotCached FailedReported ExecAttribution ArityChecked Justified NoStuck
 CHECK_DEADLOCK FALSE
